@@ -87,6 +87,10 @@ def raise_discipline(ctx, unit_qualnames, want='MatchError', also_ok=()):
         cfg = ctx.cfg(u)
         for r in [x for x in u.own_nodes() if isinstance(x, ast.Raise)]:
             n += 1
+            rn = cfg.node_of(r)
+            if rn is not None and r.exc is not None and not cfg.escapes(rn) and cfg.handlers_reached_from(rn):
+                ctx.ob(True, u, 'internal control-flow exception, always caught in the same function: %s' % norm(r), node=r)
+                continue
             if r.exc is None:
                 hs = in_handler_of(r)
                 ctx.ob(bool(hs), u, 're-raise inside a handler: %s' % norm(r), node=r)
